@@ -1,17 +1,45 @@
 """usage: /venv/bin/python -m scenarios.aio_props <Cxx> [--quick|--thorough]
-Bounded stand-ins / replays on the real asyncio code (virtual time). exit 0 ok / 1 violation / 3 error."""
+Bounded stand-ins / replays on the real asyncio code (virtual time). exit 0 ok / 1 violation / 3 error.
+The property module runs in a child process under a wall-clock limit: a run that does not terminate (busy loop or
+hang in the code under test -- every stand-in finishes in well under a minute on the unchanged tree) is reported
+as a violation, not left to hang the check."""
 import importlib
 import logging
+import multiprocessing as mp
+import os
 import sys
 
 logging.disable(logging.CRITICAL)
 
-if __name__ == '__main__':
+
+def _child(name, thorough):
+    sys.unraisablehook = lambda *a: None      # loops finalised twice at interpreter shutdown: stderr noise only
     try:
-        m = importlib.import_module('scenarios.props.' + sys.argv[1].lower())
-        rc = m.main('--thorough' in sys.argv)
-    except Exception:
+        m = importlib.import_module('scenarios.props.' + name)
+        rc = m.main(thorough)
+    except SystemExit as e:
+        rc = e.code if isinstance(e.code, int) else 3
+    except BaseException:
         import traceback
         traceback.print_exc()
         rc = 3
-    sys.exit(rc)
+    sys.stdout.flush()
+    sys.stderr.flush()
+    os._exit(rc if isinstance(rc, int) else 3)
+
+
+if __name__ == '__main__':
+    name = sys.argv[1].lower()
+    thorough = '--thorough' in sys.argv
+    limit = int(os.environ.get('STANDIN_LIMIT_S', '3000' if thorough else '420'))
+    p = mp.get_context('fork').Process(target=_child, args=(name, thorough))
+    p.start()
+    p.join(limit)
+    if p.is_alive():
+        p.kill()
+        p.join(10)
+        print('PROBLEM: the scenario run for %s did not terminate within %d s of wall-clock time: a call in the code '
+              'under test never completes or spins (all scenarios of this stand-in finish in well under a minute on '
+              'the unchanged tree)' % (sys.argv[1], limit))
+        sys.exit(1)
+    sys.exit(p.exitcode if p.exitcode is not None else 3)
